@@ -84,7 +84,9 @@ def make_engine_class():
                 raise ProcessKilledException(2, "SIGINT")
             w = self.model.w
             loss = (w * data["g"].to(w.dtype).mean()).sum()
-            self._scaler.scale(loss).backward()
+            # the convention of MRIModelEngine._do_iteration and the other engines: back-propagate only in training mode
+            if self.model.training:
+                self._scaler.scale(loss).backward()
             return DoIterationOutput(None, None, {"l1_loss": loss.detach()})
 
         def reconstruct_volumes(self, *a, **k):
@@ -142,7 +144,7 @@ def make_cfg(num_iterations, gradient_steps=1, gradient_clipping=0.0, checkpoint
     return cfg
 
 
-def train(exp_dir, grads, batches, num_iterations, k=1, clip=0.0, lr=0.5, opt="sgd", sched=None, resume=False, kill_at=None, w0=0.0, checkpoint_steps=10**9, seen=None, momentum=0.0, lazy_batches=False, validation_steps=None, extra_model=False, stale_grads=None, kill_kind="kill"):
+def train(exp_dir, grads, batches, num_iterations, k=1, clip=0.0, lr=0.5, opt="sgd", sched=None, resume=False, kill_at=None, w0=0.0, checkpoint_steps=10**9, seen=None, momentum=0.0, lazy_batches=False, validation_steps=None, extra_model=False, stale_grads=None, kill_kind="kill", no_val_datasets=False, first_run=None):
     """Run Engine.train once. Returns dict(w, lr_last_epoch, exited, lrs).
 
     sched: None -> LambdaLR with factor 2^-(epoch // 3); or a callable (optimizer) -> scheduler.
@@ -195,11 +197,29 @@ def train(exp_dir, grads, batches, num_iterations, k=1, clip=0.0, lr=0.5, opt="s
     try:
         try:
             vds = None
-            if validation_steps:
+            if validation_steps and not no_val_datasets:
                 vd = _GradDataset(grads[:2])
                 vd.text_description = "val"
                 vds = [vd]
             TinyEngine.validations = 0
+            if first_run is not None:
+                # an earlier, complete, non-resumed run of the same engine object (other directory, own optimiser state)
+                n1, grads1 = first_run
+                _FixedBatches.batches = [[i] for i in range(n1)]
+                eng.cfg.training.num_iterations = n1
+                (pathlib.Path(exp_dir) / "first").mkdir(parents=True, exist_ok=True)
+                eng.train(optimizer, scheduler, [_GradDataset(grads1)], pathlib.Path(exp_dir) / "first", validation_datasets=None, resume=False, num_workers=0)
+                eng.cfg.training.num_iterations = num_iterations
+                _FixedBatches.batches = batches
+                _FixedBatches.start = 0
+                with torch.no_grad():
+                    model.w.fill_(w0)
+                optimizer.zero_grad()
+                scheduler.last_epoch = 0
+                scheduler._step_count = 1
+                for g_, lr_ in zip(optimizer.param_groups, scheduler.base_lrs):
+                    g_["lr"] = lr_
+                del lrs[:]
             eng.train(optimizer, scheduler, [_GradDataset(grads)], pathlib.Path(exp_dir), validation_datasets=vds, resume=resume, num_workers=0)
         except SystemExit as e:
             exited = e.code
